@@ -379,7 +379,7 @@ def cont_ok(m, n, ip, lp, disco):
 def conds(tier):
     q = tier == "quick"
     cs = []
-    for k in ([3, 4, 5, 6] if q else [4, 5, 6, 7]):
+    for k in [3, 4, 5, 6]:
         sh = ["emptypos"] + (["c1", "c2"] if k >= 5 else []) + (["c3"] if k >= 7 else []) + (["c4"] if k >= 8 else [])
         cs.append(Cond("automaton-k%d" % k, "harness.c01:automaton",
                        [P("c%d" % i, "int", 0, 4) for i in range(1, k + 1)] + [P("emptypos", "bool"), P("firstid", "int", None, None)],
